@@ -20,6 +20,9 @@ package labelpatch
 //@ ensures shape: len(result) == len(batches) && fresh(result)
 //@ ensures first: result[0] == plannedAt(batches, workloadReplicas, 0)
 //@ ensures increments: forall i :: 1 <= i && i <= currentBatch ==> result[i] == plannedAt(batches, workloadReplicas, i) - plannedAt(batches, workloadReplicas, i - 1)
+//@ ensures framed: unchangedOutside()
+//@ loop 1 invariant framed: unchangedOutside()
+//@ loop 2 invariant framed: unchangedOutside()
 //@ ensures later_batches_get_nothing: forall i :: currentBatch < i && i < len(batches) ==> result[i] == 0
 //@ loop 1 invariant 0 <= i && i <= currentBatch + 1 && len(res) == len(batches) && fresh(res)
 //@ loop 1 invariant forall j :: 0 <= j && j < i ==> res[j] == plannedAt(batches, workloadReplicas, j)
@@ -38,6 +41,10 @@ package labelpatch
 //@ loop 1 invariant counters: len(plannedUpdatedReplicasForBatches) == len(r.batches) && fresh(plannedUpdatedReplicasForBatches) && -1 <= rangeindex && rangeindex < len(pods)
 //@ loop 1 invariant unlabelled_are_pods: forall q :: 0 <= q && q < len(updatedButUnpatchedPods) ==> updatedButUnpatchedPods[q] != nil
 //@ loop 1 invariant pods_kept: (forall q :: 0 <= q && q < len(pods) ==> pods[q] != nil) && (cap(updatedButUnpatchedPods) == 0 || fresh(updatedButUnpatchedPods)) && !fresh(pods)
+//@ loop 1 invariant framed: unchangedOutside()
+//@ loop 2 invariant framed: unchangedOutside()
+//@ loop 1 invariant unlabelled_are_old: forall q :: 0 <= q && q < len(updatedButUnpatchedPods) ==> !fresh(updatedButUnpatchedPods[q])
+//@ loop 1 invariant never_relabelled: forall q :: 0 <= q && q < len(updatedButUnpatchedPods) ==> updatedButUnpatchedPods[q].Labels["rollouts.kruise.io/rollout-id"] != ctx.RolloutID
 //@ loop 2 invariant counters: len(plannedUpdatedReplicasForBatches) == len(r.batches) && fresh(plannedUpdatedReplicasForBatches) && -1 <= rangeindex && rangeindex < len(pods)
 //@ loop 2 invariant pods_kept: (forall q :: 0 <= q && q < len(pods) ==> pods[q] != nil) && (cap(updatedButUnpatchedPods) == 0 || fresh(updatedButUnpatchedPods)) && !fresh(pods)
 //@ loop 2 invariant unlabelled_are_pods: forall q :: 0 <= q && q < len(updatedButUnpatchedPods) ==> updatedButUnpatchedPods[q] != nil
@@ -45,6 +52,8 @@ package labelpatch
 //@ loop 3 invariant unlabelled_are_pods: forall q :: 0 <= q && q < len(updatedButUnpatchedPods) ==> updatedButUnpatchedPods[q] != nil
 //@ loop 4 invariant counters: len(plannedUpdatedReplicasForBatches) == len(r.batches) && fresh(plannedUpdatedReplicasForBatches) && 0 <= i && i < len(plannedUpdatedReplicasForBatches)
 //@ loop 4 invariant unlabelled_are_pods: forall q :: 0 <= q && q < len(updatedButUnpatchedPods) ==> updatedButUnpatchedPods[q] != nil
+//@ loop 3 invariant list_only_shrinks: len(updatedButUnpatchedPods) <= atloop(len(updatedButUnpatchedPods)) && (forall q :: 0 <= q && q < len(updatedButUnpatchedPods) ==> updatedButUnpatchedPods[q] == atloop(updatedButUnpatchedPods[q]))
+//@ loop 4 invariant list_only_shrinks: len(updatedButUnpatchedPods) <= atloop(len(updatedButUnpatchedPods)) && (forall q :: 0 <= q && q < len(updatedButUnpatchedPods) ==> updatedButUnpatchedPods[q] == atloop(updatedButUnpatchedPods[q]))
 
 // FilterPodsForUnorderedUpdate: only the low-priority group may be cut from the list handed to the patcher; a pod that
 // already carries this release's rollout-id is never put into that group (otherwise it would not consume its batch's
